@@ -221,6 +221,16 @@ class BootEngine(object):
                     w.violate("ST", "returned struct says sv.%s defaults to "
                               "%r; this call set %r" % (name, d, val),
                               kind="returned-struct", field=name)
+            for f in (ut, bs):
+                # the two time stamps: whatever was sent is what is reported
+                if f.offset + 4 <= 128:
+                    v = int.from_bytes(got[f.offset:f.offset + 4], "little")
+                    d = rsv[f.name.encode()].default
+                    if d != v:
+                        w.violate("ST", "returned struct says sv.%s is %r; "
+                                  "the configuration area sent carries %r"
+                                  % (f.name, d, v), kind="returned-struct",
+                                  field=f.name)
             for f in sv["fields"].values():
                 if f.name in ov or f.name in ("unix_time", "boot_sig"):
                     continue
